@@ -57,8 +57,18 @@ def parse_violation(out):
     return None
 
 
-def model_check(module, cfg, workers=16, timeout=1800, extra=()):
-    """Returns dict(ok, violated, stats, wall, out)."""
+_COV = re.compile(r"^<(\w+) line \d+, col \d+ to line \d+, col \d+ of module \w+(?: \([\d ]+\))?>: (\d+):(\d+)", re.M)
+
+
+def parse_coverage(out):
+    """top-level action counts of `-coverage 1`: name -> (distinct, generated)"""
+    return {m.group(1): (int(m.group(2)), int(m.group(3))) for m in _COV.finditer(out)}
+
+
+def model_check(module, cfg, workers=16, timeout=1800, extra=(), coverage=False):
+    """Returns dict(ok, violated, stats, wall, out[, coverage])."""
+    if coverage:
+        extra = list(extra) + ["-coverage", "1"]
     rc, out, wall = run_tlc(module, cfg, workers=workers, timeout=timeout, extra=extra)
     stats = parse_stats(out)
     viol = parse_violation(out)
@@ -67,7 +77,10 @@ def model_check(module, cfg, workers=16, timeout=1800, extra=()):
         stats = {"generated": 1, "distinct": 1, "queue": 0}
     if stats is None or (not finished) or ("Error:" in out and viol is None):
         raise TLCFailure("TLC did not complete for %s/%s (rc=%s):\n%s" % (module, cfg, rc, out[-3000:]))
-    return {"ok": viol is None, "violated": viol, "stats": stats, "wall": wall, "out": out}
+    res = {"ok": viol is None, "violated": viol, "stats": stats, "wall": wall, "out": out}
+    if coverage:
+        res["coverage"] = parse_coverage(out)
+    return res
 
 
 _NOTE = re.compile(r'<<(\d+), "([^"]+)", "([^"]+)">>')
